@@ -720,6 +720,7 @@ pub enum Route {
     FromRef,
     FromVal,
     CloneOfFrom,
+    CloneFrom,
 }
 impl Route {
     pub fn name(self) -> &'static str {
@@ -729,9 +730,10 @@ impl Route {
             Route::FromRef => "from_ref",
             Route::FromVal => "from_val",
             Route::CloneOfFrom => "clone_of_from",
+            Route::CloneFrom => "clone_from",
         }
     }
-    pub const ALL: [Route; 5] = [Route::New, Route::Clone, Route::FromRef, Route::FromVal, Route::CloneOfFrom];
+    pub const ALL: [Route; 6] = [Route::New, Route::Clone, Route::FromRef, Route::FromVal, Route::CloneOfFrom, Route::CloneFrom];
 }
 
 pub fn ops_of<T: Ct>() -> TypeOps {
